@@ -137,7 +137,7 @@ def who_may_write(ctx):
     ctx.note("write_sites", n)
 
 
-@rule("C15.staleness", min_instances=6, props=["C09"])
+@rule("C15.staleness", min_instances=6, props=["C09", "C14"])
 def staleness(ctx):
     """module regenerated exactly when missing / older than the source / wrong magic number; every regeneration is followed by a load before use"""
     db = ctx.db
